@@ -6,7 +6,7 @@ CONSTANTS
   NP = 2
   Names = {"a", "b"}
   Vals = {1, 2}
-  Acts = {"CreateGroup", "CreateObject", "AddData", "Rename", "SetFlag", "SetVal", "Move", "AddToGroup", "RemoveFromGroup", "RemovePG", "RemoveViaWorkspace", "RemoveViaParent", "DropRef", "Collect", "Purge", "LookupDead", "Copy", "Close", "Open", "MoveSame", "StripOpt", "AddDataFails", "SetMeta", "AddVisual"}
+  Acts = {"CreateGroup", "CreateObject", "AddData", "Rename", "SetFlag", "SetVal", "Move", "AddToGroup", "RemoveFromGroup", "RemovePG", "RemoveViaWorkspace", "RemoveViaParent", "DropRef", "Collect", "Purge", "LookupDead", "Copy", "Close", "Open", "MoveSame", "StripOpt", "AddDataFails", "SetMeta", "AddVisual", "SetType"}
   Deviations = {"CloseKeepsOrphans"}
   MaxDepth = 5
 CONSTRAINT DepthBound
